@@ -108,6 +108,9 @@ private:
 
 	// set to true when shutting down
 	bool m_close;
+	// set when the current request hit a stalling path: nothing more is sent
+	// on this connection, it is only read to notice the client going away
+	bool m_stalled = false;
 
 	int m_flags;
 };
